@@ -712,6 +712,35 @@ fn c10(c: &mut Ctx) {
             c.str_case("uciinto", &format!("uciinto {} ", raw), s, &format!(" {}", mode));
         }
     }
+    // positions right after a double step that can be answered en passant (all of those where the double step
+    // gave check, a sample of the others): the legal-checking reader on every semilegal move
+    {
+        let want = c.vol(600, 8.0);
+        let mut got = 0usize;
+        let mut tries = 0usize;
+        while got < want && tries < want * 400 {
+            tries += 1;
+            let p = c.pool.draw(&mut c.rng);
+            let b = &p.board;
+            let doubles: Vec<Move> = semis(b).into_iter().filter(|m| m.kind() == MoveKind::PawnDouble).collect();
+            for d in doubles {
+                let nb = match b.make_move(d) { Ok(x) => x, Err(_) => continue };
+                if nb.raw().ep_source.is_none() { continue; }
+                let sm = semis(&nb);
+                if !sm.iter().any(|m| m.kind() == MoveKind::Enpassant) { continue; }
+                if !(nb.is_check() || c.rng.chance(1, 6)) { continue; }
+                let raw = codec::raw_fmt(nb.raw());
+                c.st.bump(if nb.is_check() { "ep_after_checking_double" } else { "ep_after_double" });
+                for m in sm {
+                    let enc = str_enc(&m.to_string());
+                    for mode in ["semi", "legal"] {
+                        c.case("uciinto", &format!("uciinto {} {} {}", raw, enc, mode));
+                    }
+                }
+                got += 1;
+            }
+        }
+    }
     // format → parse round trip for every semilegal move
     let n = c.vol(2000, 10.0);
     let ps = posgen::mix_f1_f2(&mut c.rng, n);
@@ -985,6 +1014,21 @@ fn c19(c: &mut Ctx) {
     // index constructors that guard the table indices (square, piece, cell, colour, castling rights)
     for t in ["file", "rank", "coord", "piece", "cell", "color", "rights"] {
         c.case(&format!("conv {}", t), &format!("conv {}", t));
+    }
+    // ... and the character constructors that feed square / cell indices (ASCII and Latin-1)
+    for ty in ["file", "rank", "cell", "color"] {
+        for cp in 0u32..0x100 {
+            c.case("fromchar", &format!("fromchar {} {}", ty, cp));
+        }
+    }
+    for a in 0u32..0x80 {
+        for b in [0x30u32, 0x31, 0x38, 0x39, 0x60, 0x61, 0x68, 0x69] {
+            // two-character coordinates around the valid ranges
+            let s: String = [char::from_u32(a).unwrap(), char::from_u32(b).unwrap()].iter().collect();
+            c.str_case("parse coord", "parse coord ", &s, "");
+            let s2: String = [char::from_u32(b).unwrap(), char::from_u32(a).unwrap()].iter().collect();
+            c.str_case("parse coord", "parse coord ", &s2, "");
+        }
     }
     let mut ps = posgen::f3h(&mut c.rng, c.thorough);
     let n = c.vol(2000, 50.0);
